@@ -1089,6 +1089,18 @@ where
         }
     }
 
+    /// Whether packets of the session have to be kept right now. During a connection attempt
+    /// that resumes a session and has not got its CONNACK yet, `need_store` only holds what the
+    /// CONNECT asked for; the session itself is still the one it was before (a failed attempt
+    /// leaves it unchanged), so its exchanges are kept if either says so.
+    fn keeps_session_packets(&self) -> bool {
+        self.need_store
+            || (self.status != ConnectionStatus::Connected
+                && !self.established
+                && !self.new_session_at_connect
+                && self.need_store_before_connect)
+    }
+
     /// Restored state belongs to a persistent session. Until a connection is established
     /// (and its CONNECT / CONNACK decide about the session) it must survive a close like the
     /// session it was exported from - in particular a first connection attempt that fails
@@ -2066,7 +2078,7 @@ where
         &mut self,
         packet: v3_1_1::GenericPubrel<PacketIdType>,
     ) -> Vec<GenericEvent<PacketIdType>> {
-        if self.status != ConnectionStatus::Connected && !self.need_store {
+        if self.status != ConnectionStatus::Connected && !self.keeps_session_packets() {
             return vec![GenericEvent::NotifyError(MqttError::PacketNotAllowedToSend)];
         }
         let mut events = Vec::new();
@@ -2078,7 +2090,7 @@ where
             ));
             return events;
         }
-        if self.need_store {
+        if self.keeps_session_packets() {
             self.store.add(packet.clone().try_into().unwrap()).unwrap();
         }
 
@@ -2103,7 +2115,7 @@ where
         if !self.validate_maximum_packet_size_send(packet.size()) {
             return vec![GenericEvent::NotifyError(MqttError::PacketTooLarge)];
         }
-        if self.status != ConnectionStatus::Connected && !self.need_store {
+        if self.status != ConnectionStatus::Connected && !self.keeps_session_packets() {
             return vec![GenericEvent::NotifyError(MqttError::PacketNotAllowedToSend)];
         }
 
@@ -2116,7 +2128,7 @@ where
             ));
             return events;
         }
-        if self.need_store {
+        if self.keeps_session_packets() {
             self.store.add(packet.clone().try_into().unwrap()).unwrap();
         }
 
@@ -3440,7 +3452,7 @@ where
                     // (while not connected - a PUBREC pipelined behind the peer's CONNECT - the
                     // PUBREL of a persistent session is queued in the store)
                     if self.auto_pub_response
-                        && (self.status == ConnectionStatus::Connected || self.need_store)
+                        && (self.status == ConnectionStatus::Connected || self.keeps_session_packets())
                     {
                         let pubrel = v3_1_1::GenericPubrel::<PacketIdType>::builder()
                             .packet_id(packet_id)
@@ -3482,7 +3494,7 @@ where
                         // (while not connected - a PUBREC pipelined behind the peer's CONNECT -
                         // the PUBREL of a persistent session is queued in the store)
                         if self.auto_pub_response
-                            && (self.status == ConnectionStatus::Connected || self.need_store)
+                            && (self.status == ConnectionStatus::Connected || self.keeps_session_packets())
                         {
                             let pubrel = v5_0::GenericPubrel::<PacketIdType>::builder()
                                 .packet_id(packet_id)
